@@ -1,6 +1,7 @@
 (* Props/C14.v — C14 property theorems only (shared model Model/C03_Copy.v). *)
 From Coq Require Import List Arith Bool.
 From Verif Require Import Model.C03_Copy Model.C14_Head Proofs.C03 Proofs.C14h.
+From Verif Require Proofs.Pins14.   (* pinned source conditions: re-checked whenever the source changes *)
 Import ListNotations.
 
 (* BlobCopy's ladder, all 32 configurations: a blob the target has is never fetched or uploaded; within one
